@@ -126,6 +126,48 @@ theorem exec_spec (op : WOp) (r : Nat → α) (its : List Iter) (m : Nat → α)
       simp only [List.map_append, List.mem_append, not_or] at hp
       rw [ih'.2 p hp.2, h1.2 p hp.1]
 
+theorem execIter_const (op : WOp) (rhs : (Nat → α) → Nat → α) (m : Nat → α) (it : Iter) :
+    execIter op rhs m it = execIter op (fun _ => rhs m) m it := by
+  obtain ⟨kind, lanes⟩ := it
+  cases kind <;> rfl
+
+/-- **a right-hand side that reads the destination tensor only at the lane's own position** (source and
+    destination coincide exactly): the in-order execution still gives `op(old p, rhs(old) j)` -/
+theorem exec_spec_local (op : WOp) (rhs : (Nat → α) → Nat → α) (its : List Iter) (m : Nat → α)
+    (hnd : ((lanesOf its).map (·.1)).Nodup)
+    (hloc : ∀ (m1 m2 : Nat → α) (l : Nat × Nat), l ∈ lanesOf its → m1 l.1 = m2 l.1 → rhs m1 l.2 = rhs m2 l.2) :
+    (∀ l ∈ lanesOf its, exec op rhs its m l.1 = op.ap (m l.1) (rhs m l.2)) ∧
+    (∀ p, p ∉ (lanesOf its).map (·.1) → exec op rhs its m p = m p) := by
+  induction its generalizing m with
+  | nil => simp [lanesOf, exec]
+  | cons it its ih =>
+    have hl : lanesOf (it :: its) = it.lanes ++ lanesOf its := by simp [lanesOf]
+    rw [hl, List.map_append, List.nodup_append] at hnd
+    obtain ⟨hnd1, hnd2, hdisj⟩ := hnd
+    have h1 := execIter_spec op (rhs m) m it hnd1
+    rw [← execIter_const] at h1
+    have hloc' : ∀ (m1 m2 : Nat → α) (l : Nat × Nat), l ∈ lanesOf its → m1 l.1 = m2 l.1 → rhs m1 l.2 = rhs m2 l.2 :=
+      fun m1 m2 l hmem => hloc m1 m2 l (by rw [hl]; exact List.mem_append_right _ hmem)
+    have ih' := ih (execIter op rhs m it) hnd2 hloc'
+    have hex : exec op rhs (it :: its) m = exec op rhs its (execIter op rhs m it) := by simp [exec]
+    rw [hex, hl]
+    refine ⟨?_, ?_⟩
+    · intro l hmem
+      rcases List.mem_append.1 hmem with hm | hm
+      · have hnot : l.1 ∉ (lanesOf its).map (·.1) := by
+          intro hin
+          exact hdisj l.1 (List.mem_map_of_mem (f := (·.1)) hm) l.1 hin rfl
+        rw [ih'.2 _ hnot]; exact h1.1 l hm
+      · rw [ih'.1 l hm]
+        have hnot : l.1 ∉ it.lanes.map (·.1) := by
+          intro hin
+          exact hdisj l.1 hin l.1 (List.mem_map_of_mem (f := (·.1)) hm) rfl
+        have hkeep := h1.2 _ hnot
+        rw [hkeep, hloc _ m l (by rw [hl]; exact List.mem_append_right _ hm) hkeep]
+    · intro p hp
+      simp only [List.map_append, List.mem_append, not_or] at hp
+      rw [ih'.2 p hp.2, h1.2 p hp.1]
+
 /-! ### the lanes of one run of the innermost loop -/
 
 theorem flatMap_single {β γ : Type} (f : β → γ) (l : List β) : l.flatMap (fun x => [f x]) = l.map f := by
